@@ -128,10 +128,16 @@ def run_verus(unit_names, canary=False, seed=None, strict=False, keep=None, extr
         for u in active:
             wrapped_types.update(u.get('wraps_types', []))
         need_ext = []
+
+        def need(t):
+            if t in wrapped_types or t in need_ext:
+                return
+            need_ext.append(t)
+            for d in cfg.TYPE_EXT[t].get('needs', []):
+                need(d)
         for u in active:
             for t in u.get('uses_types', []):
-                if t not in wrapped_types and t not in need_ext:
-                    need_ext.append(t)
+                need(t)
         by_file = {}
         for u in active:
             by_file.setdefault(u['file'], []).append(u)
@@ -160,7 +166,7 @@ def run_verus(unit_names, canary=False, seed=None, strict=False, keep=None, extr
         libp = os.path.join(crate, 'src/lib.rs')
         lib = annotate.annotate_lib_rs(open(libp).read())
         if need_ext:
-            lib += '\nverus! {\n' + '\n'.join(cfg.TYPE_EXT[t] for t in need_ext) + '\n}\n'
+            lib += '\nverus! {\n' + '\n'.join(cfg.TYPE_EXT[t]['decl'] for t in need_ext) + '\n}\n'
         open(libp, 'w').write(lib)
 
         deps = os.path.join(DEPS_DIR, 'debug/deps')
